@@ -375,6 +375,7 @@ func (h *histRun) opSession(op string) {
 	if r.chance(1, 6) {
 		expiresIn = pick(r, []int64{1, 59, 61, 119, 121, 299, 301, 3600})
 	}
+	clientShape := r.intn(4)
 	h.s.idp.mu.Lock()
 	h.s.idp.tokenDuration = time.Duration(expiresIn) * time.Second
 	h.s.idp.gate = func(kind string, form url.Values) *idpFault {
@@ -382,8 +383,8 @@ func (h *histRun) opSession(op string) {
 			return nil
 		}
 		switch plan {
-		case "client":
-			return &idpFault{status: 400, body: `{"error":"invalid_grant","error_description":"nope"}`}
+		case "client": // a rejection is a 4xx, whatever its body looks like (OAuth JSON error, a gateway's HTML page, nothing at all)
+			return clientRejection(clientShape)
 		case "server":
 			return &idpFault{status: 503, body: "down"}
 		case "broken":
